@@ -113,6 +113,14 @@ class FIXContainer:
 
         self.tags[t] = value
 
+    @staticmethod
+    def _check_tag(tag) -> str:
+        try:
+            int(str(tag))
+        except ValueError:
+            raise FIXMessageError("Tags must be only integers")
+        return str(tag)
+
     def get(self, tag: str | int | FTag, default=TagNotFoundError) -> str:
         """Get tag value.
 
@@ -173,7 +181,7 @@ class FIXContainer:
         Raises:
             FIXMessageError: incorrect group type/value
         """
-        tag = str(tag)
+        tag = self._check_tag(tag)
 
         if isinstance(group, dict):
             group = FIXContainer(group)
@@ -182,6 +190,8 @@ class FIXContainer:
 
         if tag in self:
             group_container = self.tags[tag]
+            if not isinstance(group_container, _FIXRepeatingGroupContainer):
+                raise DuplicatedTagError(f"tag={tag} already exists as a simple tag")
             group_container.add_group(group, index)
         else:
             group_container = _FIXRepeatingGroupContainer()
@@ -199,7 +209,7 @@ class FIXContainer:
             DuplicatedTagError: group with the same tag already exists
             FIXMessageError: incorrect group type/value
         """
-        tag = str(tag)
+        tag = self._check_tag(tag)
 
         if tag in self:
             raise DuplicatedTagError(f"group with {tag=} already exists")
